@@ -1724,8 +1724,269 @@ where
         effective.reads.push(ReadPlan { delivery: rp.delivery, sched: made });
     }
 
+    // ---- B: the same record through a second format --------------------------------------------------
+    // `pack.rs`: binary, self-describing, not human-readable, streaming over io::Write / io::Read.
+    // C12 / C13 state no wire shape for such a format, so the reference bytes are what the same
+    // Serialize puts into an infallible in-memory buffer; what is demanded is that the crate's
+    // Serialize and Deserialize agree with each other under it: an intact record reads back as
+    // the value that was written (also through serde's buffering containers), an acknowledged
+    // write under faults consists of exactly those bytes, a sink failure is not acknowledged,
+    // and a torn record is not accepted.  Values the in-memory baseline already failed on are
+    // left to the baseline.
+    let mut pack_faults = 0usize;
+    if g0_ok_items.iter().all(|ok| *ok) {
+        let (rng_pw, rng_pr) = match &search {
+            Some(s) => (Some(s.rng.fork(5)), Some(s.rng.fork(6))),
+            None => (None, None),
+        };
+        let wrefs: Vec<&T> = wrec.items().iter().map(|b| &b.item).collect();
+        let recser = Wire(shape, &wrefs);
+        let same_values = |vals: &[T]| -> Result<(), String> {
+            if vals.len() != wrec.items().len() {
+                return Err(format!("{} item(s) read, {} written", vals.len(), wrec.items().len()));
+            }
+            for ((b, z), s) in wrec.items().iter().zip(vals).zip(&printed) {
+                T::same_after_round_trip(&b.item, z, s, b.strict)?;
+            }
+            Ok(())
+        };
+        let read_pack = |r: &mut dyn io::Read| -> Result<Vec<T>, String> {
+            let mut d = crate::pack::Deserializer::new(r);
+            match decode::<T, _>(shape, &mut d) {
+                Ok(v) => d.end().map(|_| v).map_err(|e| e.to_string()),
+                Err(e) => Err(e.to_string()),
+            }
+        };
+        match guarded(|| crate::pack::to_vec(&recser).map_err(|e| e.to_string())) {
+            Err(p) => viols.push(viol(
+                "B-panic",
+                format!("serialising into the binary format panicked: {}", p),
+                fp,
+            )),
+            Ok(Err(_)) => stats.inc(C::pack_not_serialisable_in_shape),
+            Ok(Ok(pj)) => {
+                stats.inc(C::pack_runs);
+                if matches!(shape, Shape::Tagged | Shape::Untagged | Shape::Flatten) {
+                    stats.inc(C::pack_buffered_container_shapes);
+                }
+                // B0: in memory, no faults
+                let b0_before = viols.len();
+                match guarded(|| read_pack(&mut &pj[..]).map(|v| same_values(&v))) {
+                    Err(p) => viols.push(viol(
+                        "B-panic",
+                        format!("deserialising an intact binary record ({} bytes, shape {}) panicked: {}", pj.len(), shape.name(), p),
+                        fp,
+                    )),
+                    Ok(Err(e)) => viols.push(viol(
+                        "B0-intact-record-fails",
+                        format!(
+                            "the crate's own Serialize output under a binary self-describing format ({} bytes, shape {}) is rejected by its Deserialize: {}",
+                            pj.len(),
+                            shape.name(),
+                            e
+                        ),
+                        fp,
+                    )),
+                    Ok(Ok(Err(d))) => viols.push(viol(
+                        "B0-round-trip-differs",
+                        format!("binary format, shape {}: the value read back differs: {}", shape.name(), d),
+                        fp,
+                    )),
+                    Ok(Ok(Ok(()))) => stats.inc(C::pack_in_memory_round_trips_ok),
+                }
+                let b0_ok = viols.len() == b0_before;
+
+                // B-W: onto the simulated medium
+                let mut pdisk = Disk::default();
+                let mut pctl = WriteCtl::new(
+                    plan.pack.write_sched.clone(),
+                    plan.pack.flush_sched.clone(),
+                    rng_pw,
+                    cfg.clone(),
+                    plan.knobs.sync_each_write,
+                );
+                struct POut {
+                    ser: Result<Result<(), String>, String>,
+                    flush: Option<Result<(), String>>,
+                    accepted: usize,
+                    diverged_at: Option<usize>,
+                    terminal_in_ser: usize,
+                    after_terminal: usize,
+                }
+                fn drive_pack<W: io::Write, S: Serialize>(w: W, pj: &[u8], value: &S) -> (POut, W) {
+                    let mut shim = Shim::new(w, pj);
+                    let ser = guarded(|| crate::pack::to_writer(&mut shim, value).map_err(|e| e.to_string()));
+                    let terminal_in_ser = shim.terminal_errors;
+                    let after_terminal = shim.writes_after_terminal;
+                    let flush = match &ser {
+                        Ok(Ok(())) => Some(match guarded(|| shim.flush().map_err(|e| e.to_string())) {
+                            Ok(r) => r,
+                            Err(p) => Err(p),
+                        }),
+                        _ => None,
+                    };
+                    (
+                        POut {
+                            ser,
+                            flush,
+                            accepted: shim.accepted,
+                            diverged_at: shim.diverged_at,
+                            terminal_in_ser,
+                            after_terminal,
+                        },
+                        shim.inner,
+                    )
+                }
+                let pout: POut = {
+                    let mut sw = SimWriter { disk: &mut pdisk, ctl: &mut pctl, stats: &mut *stats, nested: None };
+                    match plan.knobs.bufwriter {
+                        None => drive_pack(&mut sw, &pj, &recser).0,
+                        Some(cap) => {
+                            let bw = io::BufWriter::with_capacity(cap.max(1), &mut sw);
+                            let (o, bw) = drive_pack(bw, &pj, &recser);
+                            let _ = guarded(move || drop(bw));
+                            o
+                        }
+                    }
+                };
+                let pcrashed = pdisk.crashed;
+                let packed = matches!(pout.ser, Ok(Ok(()))) && matches!(pout.flush, Some(Ok(()))) && !pcrashed;
+                match &pout.ser {
+                    Err(p) if pctl.sink_panicked && p.contains(SINK_PANIC) => {}
+                    Err(p) => viols.push(viol(
+                        "B-panic",
+                        format!("serialising into the binary format onto the medium panicked: {}", p),
+                        fp,
+                    )),
+                    Ok(r) => {
+                        if r.is_ok() && pout.terminal_in_ser > 0 {
+                            viols.push(viol(
+                                "B2-acked-after-sink-error",
+                                format!(
+                                    "binary format: the writer returned {} terminal error(s), yet serialising returned Ok; medium holds {} of {} bytes",
+                                    pout.terminal_in_ser,
+                                    pdisk.bytes.len(),
+                                    pj.len()
+                                ),
+                                fp,
+                            ));
+                        }
+                        if r.is_err() && pout.terminal_in_ser == 0 && b0_ok {
+                            viols.push(viol(
+                                "B4-error-invented",
+                                format!("binary format: no write failed, yet serialising returned Err({})", r.as_ref().unwrap_err()),
+                                fp,
+                            ));
+                        }
+                    }
+                }
+                if let (Some(at), 0) = (pout.diverged_at, pout.after_terminal) {
+                    viols.push(viol(
+                        "B1-bytes-diverge",
+                        format!("binary format: bytes handed to the sink differ from the in-memory serialisation of the same value at offset {}", at),
+                        fp,
+                    ));
+                }
+                if packed && !pdisk.corrupted && (pdisk.bytes != pj || pout.accepted != pj.len()) {
+                    viols.push(viol(
+                        "B1-acknowledged-bytes-inexact",
+                        format!(
+                            "binary format: acknowledged record holds {} bytes, the in-memory serialisation {} bytes, or they differ",
+                            pdisk.bytes.len(),
+                            pj.len()
+                        ),
+                        fp,
+                    ));
+                }
+                stats.inc(if pcrashed {
+                    C::pack_wr_crashed
+                } else if packed {
+                    C::pack_wr_acknowledged
+                } else {
+                    C::pack_wr_failed_honestly
+                });
+                stats.add(C::pack_write_faults_delivered, pctl.faults_delivered as u64);
+                pack_faults += pctl.faults_delivered;
+                log.u64(pctl.log.0);
+                effective.pack.write_sched = std::mem::take(&mut pctl.src.made);
+                trim_default(&mut effective.pack.write_sched, |d| *d == WDec::Accept);
+                effective.pack.flush_sched = std::mem::take(&mut pctl.flush_src.made);
+                trim_default(&mut effective.pack.flush_sched, |d| *d == FlushDec::Ok);
+
+                // B-R: recovery of what survived, through the simulated reader
+                let pdata = pdisk.bytes.clone();
+                let pintact = pdata == pj;
+                let torn = !pintact && !pdisk.corrupted && pj.starts_with(&pdata);
+                log.bytes(&pdata);
+                let mut reader = SimReader::new(&pdata, plan.pack.read_sched.clone(), rng_pr, cfg.clone(), stats);
+                let res = guarded(|| read_pack(&mut reader));
+                let terminal = reader.terminal_at.is_some();
+                let rfaults = reader.faults_delivered;
+                let made = std::mem::take(&mut reader.src.made);
+                let rlog = reader.log.0;
+                drop(reader);
+                log.u64(rlog);
+                stats.add(C::pack_read_faults_delivered, rfaults as u64);
+                pack_faults += rfaults;
+                effective.pack.read_sched = made;
+                trim_default(&mut effective.pack.read_sched, |d| *d == RDec::Chunk(usize::MAX));
+                if b0_ok {
+                    match (&res, pintact) {
+                        (Err(p), true) => viols.push(viol(
+                            "B-panic",
+                            format!("deserialising an intact binary record through a reader panicked: {}", p),
+                            fp,
+                        )),
+                        (Err(_), false) => stats.inc(C::pack_reads_non_intact_other),
+                        (Ok(Ok(vals)), true) => match guarded(|| same_values(vals)) {
+                            Ok(Ok(())) => stats.inc(C::pack_reads_intact_ok),
+                            Ok(Err(d)) => viols.push(viol(
+                                "B3-wrong-value-read",
+                                format!("binary format, intact record read in pieces: {}", d),
+                                fp,
+                            )),
+                            Err(p) => viols.push(viol("B-panic", format!("comparing the value read panicked: {}", p), fp)),
+                        },
+                        (Ok(Err(e)), true) => {
+                            if terminal {
+                                stats.inc(C::pack_reads_intact_under_terminal_fault);
+                            } else {
+                                viols.push(viol(
+                                    "B3-intact-record-not-recovered",
+                                    format!(
+                                        "binary format: the intact record reads back in memory, but not through a reader that delivers it in pieces without any terminal error: {}",
+                                        e
+                                    ),
+                                    fp,
+                                ));
+                            }
+                        }
+                        (Ok(Ok(_)), false) => {
+                            if torn {
+                                viols.push(viol(
+                                    "B3-torn-record-accepted",
+                                    format!(
+                                        "binary format: a record torn after {} of {} bytes was read back as a complete value",
+                                        pdata.len(),
+                                        pj.len()
+                                    ),
+                                    fp,
+                                ));
+                            } else {
+                                stats.inc(C::pack_reads_non_intact_other);
+                            }
+                        }
+                        (Ok(Err(_)), false) => {
+                            stats.inc(if torn { C::pack_reads_torn_rejected } else { C::pack_reads_non_intact_other });
+                        }
+                    }
+                }
+            }
+        }
+    }
+
     // ---- bookkeeping -------------------------------------------------------------------------------
-    let any_fault = fmt_faults + write_faults + read_faults_total + reentered > 0 || flipped;
+    let any_fault = fmt_faults + write_faults + read_faults_total + reentered + pack_faults > 0 || flipped;
     if any_fault {
         stats.inc(C::runs_with_fault_delivered);
     } else {
@@ -1735,10 +1996,11 @@ where
         || fmt_faults > 0
         || reentered > 0
         || (read_faults_total > 0 && !data.is_empty())
+        || pack_faults > 0
         || flipped;
     let mut key = Fnv::default();
     key.bytes(spec_text(&plan.value).as_bytes());
-    key.bytes(format!("{:?}", (&effective.knobs, &effective.fmt_sched, &effective.write_sched, &effective.flush_sched, &effective.flips, &effective.reads)).as_bytes());
+    key.bytes(format!("{:?}", (&effective.knobs, &effective.fmt_sched, &effective.write_sched, &effective.flush_sched, &effective.flips, &effective.reads, &effective.pack)).as_bytes());
     if nontrivial {
         stats.inc(C::runs_nontrivial);
         stats.nontrivial_keys.push(key.0);
@@ -1757,7 +2019,8 @@ where
         "surviving_bytes": String::from_utf8_lossy(&data),
         "flips": effective.flips,
         "reads": effective.reads,
-        "faults_delivered": { "fmt": fmt_faults, "write": write_faults, "read": read_faults_total, "reentrant_operations": reentered },
+        "binary_format_phase": effective.pack,
+        "faults_delivered": { "fmt": fmt_faults, "write": write_faults, "read": read_faults_total, "binary_format_phase": pack_faults, "reentrant_operations": reentered },
     });
     // Advisory observations: things worth telling a maintainer that C12 / C13 do not state, so
     // they never change the verdict (DESIGN 7.8).
